@@ -81,6 +81,22 @@ fn k_status(r: &mut Rng) -> (String, Out) {
     (reply, out)
 }
 
+/// values outside a field's domain must produce an error, never a wrong value
+fn k_status_bad(r: &mut Rng) -> (String, Out) {
+    let base = ["volume: 50", "state: play", "repeat: 0", "random: 1", "consume: 0", "single: 0", "playlist: 2", "playlistlength: 1", "song: 0", "songid: 1", "elapsed: 1.5", "duration: 3", "bitrate: 320", "xfade: 0", "updating_db: 3"];
+    let bad: [(&str, &[&str]); 15] = [("volume", &["256", "-1", "x", ""]), ("state", &["playing", "PLAY", "", "1"]), ("repeat", &["2", "01", "true", "-1", "", "255", "+1"]), ("random", &["2", "yes", "00"]), ("consume", &["2", "oneshot", "on"]),
+        ("single", &["2", "one", "ONESHOT", ""]), ("playlist", &["4294967296", "-1", "x"]), ("playlistlength", &["-1", "1.5", "x"]), ("song", &["-1", "x", "1.0"]), ("songid", &["-1", "x", "18446744073709551616"]),
+        ("elapsed", &["-1", "NaN", "x", "inf", "1e400"]), ("duration", &["-0.5", "abc", "NaN"]), ("bitrate", &["-1", "x", "1.5"]), ("xfade", &["-1", "x"]), ("updating_db", &["-1", "x", "1.5"])];
+    let (key, vals) = bad[r.below(bad.len())]; let v = vals[r.below(vals.len())];
+    let mut lines: Vec<String> = base.iter().map(|l| if l.starts_with(&format!("{key}: ")) { format!("{key}: {v}") } else { l.to_string() }).collect();
+    // a position without its id is outside the domain too
+    let orphan = r.below(8) == 0; if orphan { lines.retain(|l| !l.starts_with("songid: ")); lines = lines.iter().map(|l| if l.starts_with(&format!("{key}: ")) && key != "songid" { base.iter().find(|b| b.starts_with(&format!("{key}: "))).unwrap().to_string() } else { l.clone() }).collect(); }
+    r.shuffle(&mut lines);
+    let reply = lines.iter().map(|l| format!("{l}\n")).collect::<String>();
+    let out = match c::Status.response(frame_of(&reply)) { Err(_) => Ok(()), Ok(s) => Err(format!("a status reply with {} decoded to a value instead of an error: {s:?}", if orphan { "a song position but no song id".to_string() } else { format!("{key}: {v:?}") })) };
+    (reply, out)
+}
+
 fn k_stats(r: &mut Rng) -> (String, Out) {
     let v: Vec<u64> = (0..4).map(|_| r.pick(&[0u64, 1, 12345, u64::MAX])).collect();
     let d: Vec<&str> = (0..3).map(|_| r.pick(&DURS)).collect();
@@ -298,7 +314,7 @@ fn k_songs(r: &mut Rng) -> (String, Out) {
     (reply, out)
 }
 
-const KINDS: [(&str, &str, fn(&mut Rng) -> (String, Out)); 8] = [("status", "C16", k_status), ("stats", "C16", k_stats), ("count", "C16", k_count), ("list", "C16", k_list),
+const KINDS: [(&str, &str, fn(&mut Rng) -> (String, Out)); 9] = [("status", "C16", k_status), ("status_bad", "C16", k_status_bad), ("stats", "C16", k_stats), ("count", "C16", k_count), ("list", "C16", k_list),
     ("playlists", "C16", k_playlists), ("sticker", "C16", k_sticker), ("misc", "C16", k_misc), ("songs", "C14", k_songs)];
 
 fn run(kind: usize, seed: u64) -> (String, Result<Out, String>) {
